@@ -583,6 +583,18 @@ Definition register (h : hub) (c : N) (cn : conn) (b : N) (k : kind) (u : N) : h
 Definition flush (c : N) (l : list smsg) : list out := map (ToConn c) l.
 (* does the queue of a session hold a message that closes the connection it is written to
    (is_closing, for the connection the session is about to be attached to) *)
+(* the part of the queue a resume gets to write: everything up to and including the first message that
+   closes the connection (after the close frame nothing else can be written) *)
+Fixpoint upto_closing (room : option (N * N)) (l : list smsg) : list smsg :=
+  match l with
+  | [] => []
+  | m :: r =>
+      if match m with
+         | SBye _ => true
+         | SDisinvite x => match room with Some k => N.eqb (snd k) x | None => false end
+         | _ => false end
+      then [m] else m :: upto_closing room r
+  end.
 Definition queue_closes (s : session) : bool :=
   existsb (fun m => match m with
                     | SBye _ => true
@@ -657,7 +669,7 @@ Definition do_hello (h : hub) (c : N) (cn : conn) (hl : hello) : hub * list out 
                   let h3 := set_expired h2 (nrem n h2.(h_expired)) in
                   let h4 := set_clients h3 (nadd n h3.(h_clients)) in
                   let h5 := set_conns h4 (aset h4.(h_conns) c (mkconn cn.(c_addr) (Some n) false)) in
-                  let res := (h5, outs1 ++ ToConn c (SHello n (sess_userid h n s)) :: flush c s.(s_pending)) in
+                  let res := (h5, outs1 ++ ToConn c (SHello n (sess_userid h n s)) :: flush c (upto_closing s.(s_room) s.(s_pending))) in
                   (* a queued bye, or a queued disinvite from the room the session is in, closes the connection
                      (and with it the session) once it is written, like any other time it is sent *)
                   if queue_closes s then
